@@ -73,6 +73,11 @@ type Node struct {
 	// Ctr: an unsigned integer item whose value is Ctr-1 plus the repetition index of the
 	// message it is sent in (Msg.Rep): lets a compact case send thousands of distinct messages.
 	Ctr uint64 `json:"ctr,omitempty"`
+	// Only meaningful inside the replacement tree of a "resp-mut" frame, where an empty item
+	// means "keep the valid field": Empty = replace the field by the empty string, Drop = leave
+	// the field out.
+	Empty bool `json:"empty,omitempty"`
+	Drop  bool `json:"drop,omitempty"`
 }
 
 // repIndex is the repetition index used for Ctr items while a payload is encoded.
@@ -303,8 +308,13 @@ type Frame struct {
 	// Body kinds: "raw" bytes as they are; "ecies" ECIES envelope to the node key around the
 	// plaintext (a); "aes" well-formed frame = AES-CBC(PKCS5(code||payload)) (b); "cbc" AES-CBC of
 	// the plaintext as it is, no padding added, length must be a multiple of 16 (b): controls the
-	// padding class the node sees.
+	// padding class the node sees. "ecies-raw" (a, e): hand-built ECIES message to the node key
+	// whose encrypted part is Plain exactly as given (any length, also shorter than the IV) under
+	// a tag chosen by Mac. "hello" / "hello-mut" (a): valid first handshake message / with fields
+	// replaced. "resp" / "resp-mut" (e): valid handshake response of a listener / with fields of
+	// Payload.Tree = [pub?, nonce?, extra...] replacing the valid ones.
 	Kind    string   `json:"kind"`
+	Mac     string   `json:"mac,omitempty"` // ecies-raw: "" valid tag, "bad" one bit flipped, "none" no tag appended
 	Code    uint32   `json:"code,omitempty"`
 	Plain   []Seg    `json:"plain,omitempty"`
 	Payload *Payload `json:"payload,omitempty"`
@@ -315,7 +325,7 @@ type WireScript struct {
 	Frames []Frame `json:"frames"`
 	Chunks []int   `json:"chunks,omitempty"` // write sizes, cycled; empty = one write per frame
 	Cut    int64   `json:"cut"`              // send only this many bytes in total; -1 = everything
-	End    string  `json:"end"`              // "close": close after sending; "hold": keep silent, close after the node did or the hold time passed; "probe" (b): send one more well-formed frame and see whether the node delivers it or closes
+	End    string  `json:"end"`              // "close": close after sending; "hold": keep silent, close after the node did or the hold time passed; "probe" (b): send one more well-formed frame and see whether the node delivers it or closes; "probe" (e): wait for the verdict of the node's handshake, then the same if it accepted
 }
 
 // Msg is one well-framed protocol message (surface c).
@@ -337,7 +347,7 @@ type Obj struct {
 
 // Case is one executed input.
 type Case struct {
-	S     string      `json:"s"`   // surface a|b|c|d
+	S     string      `json:"s"`   // surface a|b|c|d|e
 	Idx   int         `json:"idx"` // index in the surface's list (fixed list: negative numbers are not used; Fixed tells)
 	Fixed bool        `json:"fixed,omitempty"`
 	Kind  string      `json:"kind"` // structural class (fingerprint)
